@@ -13,16 +13,38 @@ pub struct ChunkReader<R> {
     pub i: usize,
     pub pos: u64,
     pub short_reads: Arc<AtomicU64>,
+    /// n > 0: every n-th non-empty read call first reports `ErrorKind::Interrupted` (nothing transferred;
+    /// the retried call then goes through) - by the `Read` contract not an error but a request to retry
+    pub intr_every: usize,
+    calls: usize,
+    just_interrupted: bool,
+    pub interrupts: Arc<AtomicU64>,
 }
 impl<R> ChunkReader<R> {
     pub fn new(inner: R, schedule: Vec<usize>, cuts: Vec<u64>) -> Self {
-        ChunkReader { inner, schedule, cuts, i: 0, pos: 0, short_reads: Arc::new(AtomicU64::new(0)) }
+        ChunkReader { inner, schedule, cuts, i: 0, pos: 0, short_reads: Arc::new(AtomicU64::new(0)), intr_every: 0, calls: 0, just_interrupted: false, interrupts: Arc::new(AtomicU64::new(0)) }
+    }
+    pub fn with_interrupts(mut self, every: usize) -> Self {
+        self.intr_every = every;
+        self
     }
 }
 impl<R: Read> Read for ChunkReader<R> {
     fn read(&mut self, buf: &mut [u8]) -> io::Result<usize> {
         if buf.is_empty() {
             return self.inner.read(buf);
+        }
+        if self.intr_every > 0 {
+            if self.just_interrupted {
+                self.just_interrupted = false;
+            } else {
+                self.calls += 1;
+                if self.calls % self.intr_every == 0 {
+                    self.just_interrupted = true;
+                    self.interrupts.fetch_add(1, Ordering::Relaxed);
+                    return Err(io::Error::new(io::ErrorKind::Interrupted, "injected EINTR"));
+                }
+            }
         }
         let mut n = buf.len();
         if !self.schedule.is_empty() {
@@ -55,14 +77,33 @@ pub struct ShortWriter<W> {
     pub schedule: Vec<usize>,
     pub i: usize,
     pub short_writes: u64,
+    /// n > 0: every n-th non-empty write call first reports `ErrorKind::Interrupted` (nothing accepted)
+    pub intr_every: usize,
+    calls: usize,
+    just_interrupted: bool,
 }
 impl<W> ShortWriter<W> {
     pub fn new(inner: W, schedule: Vec<usize>) -> Self {
-        ShortWriter { inner, schedule, i: 0, short_writes: 0 }
+        ShortWriter { inner, schedule, i: 0, short_writes: 0, intr_every: 0, calls: 0, just_interrupted: false }
+    }
+    pub fn with_interrupts(mut self, every: usize) -> Self {
+        self.intr_every = every;
+        self
     }
 }
 impl<W: Write> Write for ShortWriter<W> {
     fn write(&mut self, buf: &[u8]) -> io::Result<usize> {
+        if !buf.is_empty() && self.intr_every > 0 {
+            if self.just_interrupted {
+                self.just_interrupted = false;
+            } else {
+                self.calls += 1;
+                if self.calls % self.intr_every == 0 {
+                    self.just_interrupted = true;
+                    return Err(io::Error::new(io::ErrorKind::Interrupted, "injected EINTR"));
+                }
+            }
+        }
         if buf.is_empty() || self.schedule.is_empty() {
             return self.inner.write(buf);
         }
